@@ -431,26 +431,29 @@ pub fn chase(
     locals: &BTreeMap<String, String>,
     key: &str,
 ) -> Result<Option<String>, Error> {
-    // The haystack is a reverse iterator over both lists in series
-    let mut haystack = globals.iter().chain(locals.iter()).rev();
-
-    // Find the needle in the haystack, recursively chasing look-ups ('$')
-    // and handling defaults ('*')
+    // Step-local values take precedence over values provided by the caller(s)
+    // (the globals). But once we start chasing a look-up ('$'), or a default
+    // ('(...)'), we are looking for a value provided by a caller, so from then
+    // on, only the globals are searched. Each look-up starts from scratch, so
+    // the outcome does not depend on the lexical order of the parameter names.
     let key = key.trim();
     if key.is_empty() {
         return Err(Error::Syntax(String::from("Empty key")));
     }
 
-    let mut default = "";
-    let mut needle = key;
-    let mut chasing = false;
-    let value;
+    // Circular look-ups (a=$b b=$a) would otherwise go on forever
+    const MAX_LOOKUPS: usize = 100;
 
-    loop {
-        let found = haystack.find(|&x| x.0 == needle);
-        if found.is_none() {
-            if !default.is_empty() {
-                return Ok(Some(String::from(default)));
+    let mut default: Option<String> = None;
+    let mut needle = key.to_string();
+    let mut chasing = false;
+
+    for _ in 0..MAX_LOOKUPS {
+        let local = if chasing { None } else { locals.get(&needle) };
+        let found_locally = local.is_some();
+        let Some(thevalue) = local.or_else(|| globals.get(&needle)) else {
+            if let Some(default) = default {
+                return Ok(Some(default));
             }
             if chasing {
                 return Err(Error::Syntax(format!(
@@ -458,10 +461,10 @@ pub fn chase(
                 )));
             }
             return Ok(None);
-        }
-        let thevalue = found.unwrap().1.trim();
+        };
+        let thevalue = thevalue.trim();
 
-        // If the value is a(nother) lookup, we continue the search in the same iterator,
+        // If the value is a(nother) lookup, we continue the search among the globals,
         // now using a *new search key*, as specified by the current value
         if let Some(stripped) = thevalue.strip_prefix('$') {
             let mut parts: Vec<_> = stripped
@@ -475,30 +478,34 @@ pub fn chase(
                 )));
             }
 
-            // Do we have a default value?, i.e. $arg_name(defualt_value)
-            if parts.len() == 2 && !chasing {
-                default = parts.pop().unwrap();
+            // Do we have a default value?, i.e. $arg_name(default_value)
+            if parts.len() == 2 {
+                default = Some(parts.pop().unwrap().to_string());
             }
             chasing = true;
-            needle = parts.pop().unwrap();
+            needle = parts.pop().unwrap().to_string();
             continue;
         }
 
-        // If the value is a provided default, we continue the search using the *same key*,
-        // in case a proper value is provided.
+        // If the value is a provided default, we continue the search among the globals,
+        // using the *same key*, in case a proper value is provided.
         // cf. the test `macro_expansion_with_defaults_provided_in_parenthesis()` in `./mod.rs`
         if let Some(stripped) = thevalue.strip_prefix('(') {
+            let stripped = stripped.trim_end_matches(')');
+            if !found_locally {
+                // No callers further out to ask
+                return Ok(Some(stripped.to_string()));
+            }
+            default = Some(stripped.to_string());
             chasing = true;
-            needle = key;
-            default = stripped.trim_end_matches(')');
             continue;
         }
 
         // Otherwise we have the proper result
-        value = String::from(thevalue.trim());
-        break;
+        return Ok(Some(String::from(thevalue)));
     }
-    Ok(Some(value))
+
+    Err(Error::Syntax(format!("Circular definition for '{key}'")))
 }
 
 // ----- T E S T S ------------------------------------------------------------------
